@@ -427,6 +427,10 @@ def ob_product(cfg, N, square):
     ok = L.prove(ident, "product identity")
     kname = "bigint_%d_%s" % (2 * N, "square" if square else "multiply")
     if ok is None:
+        hit = L.wrap_search(lambda env: L.evaluate(got, env) != L.evaluate(want, env), (), 5000, 120, True)
+        if hit is not None:
+            raise Violation("%s:%s" % (cfg, kname), "%s (%s): result is not sum a_i*b_j*2^(w(i+j)) (input found by the lost-carry search after the solver gave up)" % (kname, cfg),
+                            {"kernel": kname, "backend": cfg, "a": hex(model_words(hit, "a", nw, wb)), "b": hex(model_words(hit, "a" if square else "b", nw, wb))})
         raise Inconclusive("solver unknown on the product identity of " + kname)
     if not ok:
         from engine.wordspec import nia_model
